@@ -370,9 +370,37 @@ func TestHeaderFromReader(t *testing.T) {
 func TestLayoutPerType(t *testing.T) {
 	for _, b := range gen.Bindings {
 		b := b
+		var prev *ref.Vals
 		t.Run(b.Spec.ID(), rapid.MakeCheck(func(t *rapid.T) {
-			eval(t, b, gen.DrawVals(t, b, gen.Opts{BigBodies: true, BigTails: true}))
+			v := gen.DrawVals(t, b, gen.Opts{BigBodies: true, BigTails: true})
+			eval(t, b, v)
+			// one PDU value used for two messages: the previous case's contents first, then this one's
+			if prev != nil {
+				rec.Eval()
+				rec.Class("value_reused_for_a_second_message")
+				if viol := gen.LayoutEncodeReused(b, prev, v); viol != nil {
+					viol.Case = ReusedCase{First: gen.PCase{Vals: ref.ToJ(b.Spec, prev)}, Then: gen.PCase{Vals: ref.ToJ(b.Spec, v)}}
+					rec.Report(t, "layout-reused", viol)
+				}
+			}
+			prev = v
 		}))
+	}
+}
+
+// ReusedCase: the two messages one PDU value was used for.
+type ReusedCase struct {
+	First gen.PCase `json:"first"`
+	Then  gen.PCase `json:"then"`
+}
+
+func init() {
+	reg["layout-reused"] = func(raw json.RawMessage) *vk.Violation {
+		var c ReusedCase
+		_ = json.Unmarshal(raw, &c)
+		s1, v1 := ref.FromJ(c.First.Vals)
+		_, v2 := ref.FromJ(c.Then.Vals)
+		return gen.LayoutEncodeReused(gen.ByID(s1.ID()), v1, v2)
 	}
 }
 
@@ -442,6 +470,37 @@ func TestGrid(t *testing.T) {
 				do(sm.Intn(256), sm.Intn(256))
 			}
 			rec.Class("grid_both_axes")
+		}
+		if lf != nil && lf.Kind == ref.Len8 {
+			// bodies of very low entropy (all octets 0 or 1) in which ONE octet takes every value: what a decoder
+			// that sniffs the body for the layout of another protocol version, a header or a length would key on
+			for _, l := range []int{24, 40, 64, 140} {
+				for pos := 0; pos < 16 && pos < l; pos++ {
+					for val := 0; val < 256; val++ {
+						idx++
+						if !env.Mine(idx) {
+							continue
+						}
+						v := gen.SeedVals(b, uint64(l*7+pos), 1, l)
+						body := make([]byte, l)
+						for i := range body {
+							body[i] = byte((i*5 + pos) & 1)
+						}
+						body[pos] = byte(val)
+						for _, f := range s.Fields {
+							if f.Kind == ref.Body {
+								v.F[f.Name] = body
+							}
+						}
+						rec.NonTrivialConstructed(1)
+						rec.EvalN(1)
+						if viol := gen.LayoutDecode(b, v); viol != nil {
+							rec.Report(t, "layout-decode", viol)
+						}
+					}
+				}
+			}
+			rec.Class("low_entropy_body_with_one_swept_octet")
 		}
 	}
 }
